@@ -26,19 +26,24 @@ CHECKS["C03"] = {
     "technique": "stateless deviation-bounded exploration of segmentation (all cut sets up to a bound, 1-byte delivery) with a differential oracle on the real code",
     "level_text": "For every exchange of the set, every way of cutting both streams with at most 2 (quick) / 3 (thorough, windowed above 90 bytes) cuts, uniform "
                   "1/2/3/7-byte delivery and all partitions of the micro set are executed on the real parser and the complete observation (all tx fields, bodies, "
-                  "raw header bytes, per-tx callback order) must equal the uncut run. Coverage statement, not a sample: no execution within the bound differs.",
+                  "raw header bytes, per-tx callback order) must equal the uncut run. Interleaved layer: both streams cut at their message boundaries plus at most 2 further "
+                  "cuts anywhere, under EVERY legal interleaving of the two chunk lists (a response chunk only after all bytes of the requests it answers; 6.6e6 schedules), "
+                  "same comparison with the schedule-dependent pipelining indicator masked. Coverage statement, not a sample: no execution within the bound differs.",
     "level_note": "Assumes the exchange set of mc/cutmc.c (slot grammar <=1 deviation in both pipeline positions, adversarial bodies x framings); raw header/trailer-data "
                   "callbacks are compared by content, not position (they are flushed per chunk by design); HTP_MULTI_PACKET_HEAD masked as the statement says.",
     "design_ref": "DESIGN.md §6 C03",
     "rule": "E1 cutmc seg: for each exchange (gen <=1-deviation set as message 1 and 2 of a pipeline, adversarial bodies under every framing, micro set) "
             "every cut set of size <= D over all byte positions of both streams, uniform 1/2/3/7-byte delivery, all 2^(n-1) partitions of the micro set; "
             "oracle = digest equality with the uncut execution; distinct = distinct callback traces (kind,tx,len,hash) per exchange",
-    "bounds": {"quick": "all single cuts and all pairs; ASan pass on single cuts", "thorough": "+ triples (all for <=90-byte exchanges, window 24 otherwise); ASan pass on pairs"},
+    "bounds": {"quick": "all single cuts and all pairs; ASan pass on single cuts; interleaved layer: boundary cuts + <=2 cuts x all legal interleavings (ASan: + <=1 cut)", "thorough": "+ triples (all for <=90-byte exchanges, window 24 otherwise); ASan pass on pairs"},
     "mc_explanation": "stateless exploration of the real parser: states = distinct observed callback traces, transitions = data calls executed; every trace is an implementation trace",
-    "assumptions": ["requests are delivered before responses so that only segmentation varies", "IDS personality with both body parsers"],
+    "assumptions": ["cut layers: requests are delivered before responses so that only segmentation varies; interleaved layer: every legal schedule", "IDS personality with both body parsers"],
     "jobs": lambda tier: [J("cutmc", "plain", ["--mode", "seg"]),
                           J("cutmc", "plain", ["--mode", "seg", "--source", "bases", "--layers", "2" if tier == "quick" else "3"]),
-                          J("cutmc", "asan", ["--mode", "seg", "--layers", "1" if tier == "quick" else "2"])],
+                          J("cutmc", "asan", ["--mode", "seg", "--layers", "1" if tier == "quick" else "2"]),
+                          # both streams cut at the message boundaries plus <= 2 further cuts anywhere, under EVERY legal interleaving of the chunk lists
+                          J("cutmc", "plain", ["--mode", "seg", "--ilv", "3"]),
+                          J("cutmc", "asan", ["--mode", "seg", "--ilv", "2"])],
 }
 
 
@@ -264,19 +269,20 @@ CHECKS["C18"] = {
     "level": "fault_enumeration",
     "technique": "exhaustive single- and double-fault enumeration (fail the k-th allocation for every k) over the capture corpus and over deviation-bounded token-edit histories under every schedule with <= 1 preemption, on the real code under ASan+UBSan",
     "level_text": "For each of the repository's ~100 captures plus 19 generated exchanges (multipart with file, urlencoded, cookies, all auth types, CONNECT, pipelining, PUT, folded headers, "
-                  "100-continue, chunked+trailer, gzip/zlib/raw deflate/2-layer/request gzip, absolute URI, 0.9, malformed lines), under two configurations and two chunkings (as captured, and "
-                  "re-cut into 5-byte chunks so that the line-buffering allocations exist), the run is repeated once per allocation made inside libhtp (malloc/calloc/realloc/strdup incl. the "
+                  "100-continue, chunked+trailer, gzip/zlib/raw deflate/2-layer/request gzip, absolute URI, 0.9, malformed lines), under two configurations and three chunkings (as captured, "
+                  "re-cut into 5-byte chunks and byte by byte so that every line-buffering allocation exists; thorough also 2- and 3-byte chunks), the run is repeated once per allocation made inside libhtp (malloc/calloc/realloc/strdup incl. the "
                   "LZMA allocator, and inflateInit2_) with exactly that allocation failing - every k up to the fault-free count - and with all pairs (k1,k2) within a window of 40 on the "
                   "smaller items. Oracle: no ASan/UBSan report, every call returns, the stream-API contract monitor keeps holding on later calls, teardown completes.",
     "level_note": "Leaks while a fault is being injected are not judged (the statement asks for no crash, corruption, double free or use-after-free). zlib's internal allocations are reached only "
                   "through inflateInit2_ returning Z_MEM_ERROR.",
     "design_ref": "DESIGN.md §6 C18",
-    "rule": "corpus item x cfg x chunking x k in 1..N (N measured per item); plus cutmc edits --faults: every base exchange / edited history x every schedule with <= 1 preemption x k in 1..N; "
+    "rule": "corpus item x cfg x chunking {as captured, 5-byte, 1-byte} x k in 1..N (N measured per item); plus cutmc edits --faults: every base exchange / edited history x every schedule with <= 1 preemption x k in 1..N; "
             "distinct = distinct (callback trace, call count, final statuses) outcomes",
     "bounds": {"quick": "all single faults; pairs (window 40) on the first 40 items; edits: 22 bases (no edit) under every schedule with <= 1 preemption, and every 1-edit history in the default schedule",
                "thorough": "pairs on every item < 600 bytes; edits: every 1-edit history under every schedule with <= 1 preemption (1.4e7 fault executions)"},
     "assumptions": ["corpus of mc/corpus.c + test/files/*.t", "token pools and bases of the edits mode (mc/cutmc.c)"],
-    "jobs": lambda tier: [J("faultmc", "asan")] + ([J("cutmc", "asan", ["--mode", "edits", "--faults", "1", "--edits", "0", "--preempt", "1"]),
+    "jobs": lambda tier: [J("faultmc", "asan"), J("faultmc", "asan", ["--rechunk", "1", "--only-rechunk", "1", "--pairs", "0"])] +
+                         ([J("faultmc", "asan", ["--rechunk", str(k), "--only-rechunk", "1", "--pairs", "0"]) for k in (2, 3)] if tier == "thorough" else []) + ([J("cutmc", "asan", ["--mode", "edits", "--faults", "1", "--edits", "0", "--preempt", "1"]),
                                                       J("cutmc", "asan", ["--mode", "edits", "--faults", "1", "--edits", "1", "--preempt", "0"])] if tier == "quick" else
                                                      [J("cutmc", "asan", ["--mode", "edits", "--faults", "1", "--edits", "1", "--preempt", "1"])]),
 }
